@@ -18,10 +18,14 @@ SYMBOLIC = {"NL": "\n", "CR": "\r", "NUL": "\x00", "TAB": "\t", "BSNL": "\\\n", 
 BATCH = 40
 
 
+# Inputs that a seeded part of an earlier run found to matter: kept so that every run meets them again.
+REGRESSION = ["declare a=$((1 b", "until declare -r a=$((foo b; do cmd foo; done; \n", "case a=(", "a<<b;c", "<<"]
+
+
 def fail_key(f):
-    # post-processing panics are keyed by where they happen, not by the entry point that made the tree
-    entry = "post" if f["entry"].startswith("post:") else f["entry"]
-    return "panic|%s|%s" % (entry, f["detail"][:200])
+    # keyed by where the panic happens (message + innermost mvdan/sh frames), not by the entry point used;
+    # "post" marks panics while printing / walking / encoding / simplifying a returned tree
+    return "panic|%s%s" % ("post|" if f["entry"].startswith("post:") else "", f["detail"][:200])
 
 
 def text_of(seq, frags):
@@ -130,8 +134,11 @@ def run(ck):
         if frags is None:
             raise vlib.Inconclusive("ShTokens did not emit its alphabet")
         vs = t.vecs.get("VEC", [])
-        if cfg == "ShTokens.thorough4.cfg" and len(vs) > 200000:
-            ck.rng.shuffle(vs); vs = vs[:200000]
+        cap = {"ShTokens.thorough4.cfg": 60000, "ShTokens.thorough.cfg": 125000}.get(cfg)
+        if cap and len(vs) > cap:
+            # every sequence up to length 2 is kept (they come from ShTokens.quick.cfg); longer ones are sampled
+            ck.rng.shuffle(vs); vs = vs[:cap]
+            ck.notes.setdefault("sampled", {})[cfg] = cap
         for s in vs:
             txt = text_of(s, frags)
             if txt not in inputs:
@@ -139,15 +146,18 @@ def run(ck):
                 origin[cfg] += 1
     lap("tlc_shtokens")
     vecs = syn.generate(ck, "quick", ck.seed, emit_sim=False); lap("tlc_shsyntax")
-    for s in mutations(vecs, ck.rng, 3000 if quick else 40000):
+    for s in mutations(vecs, ck.rng, 3000 if quick else 20000):
         if s not in inputs:
             inputs[s] = "mutation"; origin["mutations of ShSyntax programs"] += 1
+    for s in REGRESSION:
+        if s not in inputs:
+            inputs[s] = "regression"; origin["regression inputs kept from earlier runs"] += 1
     srcs = list(inputs)
     # timing sample: every short builder input and a seeded sample of the rest
-    timed = set(i for i, s in enumerate(srcs) if len(s) <= 4)
+    timed = set(i for i, s in enumerate(srcs) if len(s) <= (3 if quick else 4))
     rest = [i for i in range(len(srcs)) if i not in timed]
     ck.rng.shuffle(rest)
-    timed |= set(rest[:1500 if quick else 20000])
+    timed |= set(rest[:1000 if quick else 20000])
     jobs = []
     lin = [i for i in range(len(srcs)) if i in timed]
     non = [i for i in range(len(srcs)) if i not in timed]
@@ -173,10 +183,17 @@ def run(ck):
             if key not in seen or len(src) < len(seen[key]["vector"]["src"]):
                 seen[key] = rec
             ck.violation(key, seen[key])
+    unrepro = 0
     for hg in hangs:
         what = hg["hang"].split("|")
         key = "hang|%s" % (what[0] if what else "?")
-        ck.violation(key, {"vector": {"src": None, "job": hg["job"], "call": hg["hang"]}, "impl": {"stack": hg.get("stack", "")}})
+        # a hang is reported only if the same job hangs again when it is run on its own
+        again, h2 = run_tolerant(h, [{k: v for k, v in hg["job"].items() if k != "_idx"}], shards=1)
+        if not h2:
+            unrepro += 1
+            continue
+        ck.violation(key, {"vector": {"src": None, "job": hg["job"], "call": h2[0]["hang"]}, "impl": {"stack": h2[0].get("stack", "")}})
+    ck.notes["hangs_not_reproduced"] = unrepro
     # super-linear candidates: reproduce twice more before reporting
     confirmed = 0
     for src, f in slow[:20]:
@@ -191,14 +208,14 @@ def run(ck):
     ck.cov["rule"] = ("inputs = every fragment sequence of ShTokens up to length 2 (67 fragments)%s, simulated long sequences, single-token "
                       "mutations of ShSyntax programs; each x 8 entry points x 5 variants x 4 option rows; evaluations = calls + post-"
                       "processing runs (print x4, walk, typedjson, simplify) on returned trees; non-trivial = inputs longer than one byte"
-                      % (", length 3 over the reduced alphabet" if quick else ", length 3, a sample of length 4 over the reduced alphabet"))
+                      % (", length 3 over the reduced alphabet" if quick else ", a 125k sample of length 3, a 60k sample of length 4 over the reduced alphabet"))
     ck.notes.update({"inputs": len(srcs), "inputs_by_origin": dict(origin), "calls": calls, "trees_post_processed": trees,
                      "timed_inputs": len(timed), "worst_time_ratio_x512_over_x64": round(worst, 1), "slow_candidates": len(slow),
                      "slow_confirmed": confirmed, "hangs": len(hangs), "wall_parts_s": walls})
     for s in srcs[:3]:
         pass
     ck.sample({"input": srcs[len(srcs) // 2], "calls_per_input": 160, "outcome": "returned"}, cap=2)
-    ck.assumptions += ["a hang is a call running longer than 8 s (watchdog); super-linear = x512 input takes > 40x the time of x64 input, reproduced three times",
+    ck.assumptions += ["a hang is a call that has used more than 6 s of CPU or 90 s of wall time (watchdog) and does so again when its batch is re-run alone; super-linear = x512 input takes > 40x the time of x64 input, reproduced three times",
                        "bytes reach the lexer only through the fragment alphabet of spec/ShTokens.tla and the tokens of spec/ShSyntax.tla"]
 
 
